@@ -3,6 +3,7 @@
    (SAM approximations, every repetition count).  [computer] = CRef | CCached | CSam r covers the whole BOUNDS registry
    (RegistryProps, generated from /repo, maps every registered name to one of these). *)
 From ICG Require Import Prelude Bits Table Bounds GameOps FoldLemmas BoundsSpec SASound SAEquiv SAKnowledge SAMKnowledge Checks.
+From ICG Require Import SATight SAMSpec PinnedProofs.
 From ICG Require Import RegistryTypes gen.Registry gen.RegistryLinkProps.
 
 (* Two tables with the same known rows - unknown rows hold arbitrary stale numbers - give the same result
@@ -60,4 +61,72 @@ Proof.
     unfold fresh. match goal with |- oteqn _ ?x _ => let y := eval vm_compute in x in change x with y end.
     intros s Hb. apply in_alln in Hb. revert s Hb. apply Forall_forall. vm_compute.
     repeat (apply Forall_cons; [reflexivity|]). apply Forall_nil.
+Qed.
+
+(* ------------------------------------------------------------------ *)
+(* Revealing a pinned-down coalition (theories/PinnedProofs.v)          *)
+(* ------------------------------------------------------------------ *)
+(* An unknown coalition S is pinned down when its computed bounds coincide (by soundness both are then v S).
+   Superadditive computers: the bounds recomputed after revealing S with its true value are the bounds before the
+   reveal on EVERY coalition; only the known flag of S changes.  So an environment step may skip the recomputation
+   for a pinned-down S - for CRef / CCached. *)
+Theorem C08_reveal_pinned_is_noop_SA :
+  forall (c : computer) n K v t r S,
+    (c = CRef \/ c = CCached) -> SA n v -> v 0%N == 0 -> MinK n K -> agrees n t K v ->
+    bounded n S -> K S = false ->
+    compute c n t = Some r -> L r S == U r S ->
+    reveal t S (v S) = (set_value t S (v S), Ok)
+    /\ exists r', compute c n (set_value t S (v S)) = Some r'
+         /\ (forall X, bounded n X -> L r' X == L r X /\ U r' X == U r X)
+         /\ (forall X, bounded n X -> Kn r' X = if (X =? S)%N then true else Kn r X)
+         /\ L r S == v S.
+Proof. exact pn_reveal_pinned_noop_tables. Qed.
+Print Assumptions C08_reveal_pinned_is_noop_SA.
+
+(* the same at the level of the bound equations: (l, u) solves them for knowledge K, (l', u') for K + {S}
+   (pn_add K S X = (X =? S) || K X) *)
+Theorem C08_reveal_pinned_is_noop_SA_equations :
+  forall n K v l u l' u' S,
+    SA n v -> v 0%N == 0 -> MinK n K -> bounded n S -> K S = false ->
+    sa_sol n K v l u -> sa_sol n (pn_add K S) v l' u' -> l S == u S ->
+    forall X, bounded n X -> l' X == l X /\ u' X == u X.
+Proof. exact pn_reveal_pinned_noop. Qed.
+Print Assumptions C08_reveal_pinned_is_noop_SA_equations.
+
+(* Monotone approximations: FALSE.  Witness (CSam 1, budget game v T = - min (3, |T|) on 5 players, known: minimal
+   information + {1,4} + {0,1,3}): S = {0,3} is pinned down at -2, yet revealing it moves the upper bound of
+   X = {0,2,3} from -1 to -2, because sam_upper_cell also takes the minimum over the KNOWN sub-coalitions. *)
+Theorem C08_reveal_pinned_SAM_refuted :
+  exists (r : nat) (n : nat) (v : N -> Q) (K : N -> bool) (t a b : table) (S X : N),
+    SA n v /\ Mono n v /\ v 0%N == 0 /\ MinK n K /\ agrees n t K v /\
+    bounded n S /\ K S = false /\ bounded n X /\
+    compute (CSam r) n t = Some a /\ L a S == U a S /\ L a S == v S /\
+    reveal t S (v S) = (set_value t S (v S), Ok) /\
+    compute (CSam r) n (set_value t S (v S)) = Some b /\
+    ~ U b X == U a X.
+Proof. exact pn_sam_reveal_pinned_refuted. Qed.
+Print Assumptions C08_reveal_pinned_SAM_refuted.
+
+(* non-vacuity: a 4-player superadditive (not additive) game; known: minimal information + {0,1};
+   S = {0,1,2} (id 7) is unknown and pinned down at 6 = v{0,1} + v{2} = v(N) - v{3}; other coalitions (e.g. id 13: [4, 6])
+   keep a proper interval; for both computers the bounds before and after the reveal are the same rationals *)
+Definition ex_pin_v : N -> Q := game_of [0; 1; 2; 5; 1; 2; 3; 6; 2; 3; 4; 7; 3; 4; 5; 8].
+Definition ex_pin_K : N -> bool := known_in [0; 1; 2; 4; 8; 15; 3]%N.
+Definition ex_pin_t : table := table_of 4 ex_pin_K ex_pin_v 77.
+Definition ex_pin_bounds (t : table) : list (Q * Q) := map (fun s => (Qred (L t s), Qred (U t s))) (alln 4).
+Example C08_reveal_pinned_example :
+  SA 4 ex_pin_v /\ ex_pin_v 0%N == 0 /\ MinK 4 ex_pin_K /\ agrees 4 ex_pin_t ex_pin_K ex_pin_v
+  /\ bounded 4 7 /\ ex_pin_K 7%N = false
+  /\ forall c, c = CRef \/ c = CCached ->
+       exists r r', compute c 4 ex_pin_t = Some r /\ L r 7 == U r 7 /\ L r 13 < U r 13
+         /\ compute c 4 (fst (reveal ex_pin_t 7 (ex_pin_v 7))) = Some r'
+         /\ ex_pin_bounds r' = ex_pin_bounds r /\ Kn r 7 = false /\ Kn r' 7 = true.
+Proof.
+  split; [apply sa_check_sound; vm_compute; reflexivity|]. split; [reflexivity|].
+  split; [apply mink_check_sound; vm_compute; reflexivity|].
+  split; [apply agrees_check_sound; vm_compute; reflexivity|].
+  split; [apply in_alln; vm_compute; tauto|]. split; [reflexivity|].
+  intros c [->| ->]; eexists; eexists; (split; [vm_compute; reflexivity|]);
+    (split; [vm_compute; reflexivity|]); (split; [vm_compute; reflexivity|]); (split; [vm_compute; reflexivity|]);
+    (split; [vm_compute; reflexivity|]); split; vm_compute; reflexivity.
 Qed.
